@@ -1218,3 +1218,7 @@ pub mod builder {
 
 #[cfg(test)]
 mod tests;
+
+#[cfg(all(aws_s2n_quic_verif, test))]
+#[path = "/verif/harness/core/bbr.rs"]
+mod verif;
